@@ -100,7 +100,7 @@ func runHarness(id, hid, tier string, seed int, findings []*finding, res *propRe
 	ovPath := filepath.Join(tmp, "overlay.json")
 	os.WriteFile(ovPath, data, 0o644)
 	out := filepath.Join(tmp, "report.json")
-	cmd := exec.Command("go", "test", "-tags", "verif", "-overlay", ovPath, "-vet=off", "-count=1", "-timeout", "3000s", "-run", "^TestRAC_"+hid+"$", ".")
+	cmd := exec.Command("go", "test", "-tags", "verif", "-overlay", ovPath, "-vet=off", "-count=1", "-timeout", harnessTimeout(tier), "-run", "^TestRAC_"+hid+"$", ".")
 	cmd.Dir = abs
 	cmd.Env = append(os.Environ(), "GOFLAGS=-mod=mod", "GOPROXY=off", "GOSUMDB=off", "GOTOOLCHAIN=local",
 		fmt.Sprintf("RAC_N=%d", n), "RAC_BIG="+big, fmt.Sprintf("VERIF_SEED=%d", seed), "RAC_OUT="+out)
@@ -201,4 +201,13 @@ func writeBoundedReplay(id, name string, fields map[string]string) string {
 	data, _ := json.MarshalIndent(fields, "", " ")
 	os.WriteFile(path, data, 0o644)
 	return path
+}
+
+// harnessTimeout: the harness must end on its own; a hang (a deadlock in the code under test) ends the quick
+// tier after ten minutes and is then reported as did-not-complete
+func harnessTimeout(tier string) string {
+	if tier == "thorough" {
+		return "3000s"
+	}
+	return "600s"
 }
